@@ -1971,12 +1971,12 @@ def key_split(s):
     >>> key_split('_(x)')  # strips unpleasant characters
     'x'
     """
-    # If we convert the key, recurse to utilize LRU cache better
-    if type(s) is bytes:
-        return key_split(s.decode())
-    if type(s) is tuple:
-        return key_split(s[0])
     try:
+        # If we convert the key, recurse to utilize LRU cache better
+        if type(s) is bytes:
+            return key_split(s.decode())
+        if type(s) is tuple:
+            return key_split(s[0])
         words = s.split("-")
         if not words[0][0].isalpha():
             result = words[0].split(",")[0].strip("_'()\"")
